@@ -11,6 +11,7 @@
 import IvpModel.Proofs.CtlRk
 import IvpModel.Proofs.SolOutPhases
 import IvpModel.Proofs.DensePassive
+import IvpModel.Proofs.DensePassiveRk
 
 /-!
   * `c12_dense_flag_passive` (added in session 3c): at the solver interface, for a kernel whose state update and right-hand-side
@@ -35,4 +36,18 @@ theorem c12_dense_flag_passive_dopri5 {σ : Type} {n : Nat} (P : Ctl.HParams K n
     (Ctl.hSolve (Ctl.setDense P false) (Ctl.dopri5Kernel atol rtol) f ob obs0 x0 y0 firstStep hinit fo hl fuel).map Ctl.eResult
       = (Ctl.hSolve (Ctl.setDense P true) (Ctl.dopri5Kernel atol rtol) f ob obs0 x0 y0 firstStep hinit fo hl fuel).map Ctl.eResult :=
   Ctl.hSolve_dense_passive P _ (Ctl.dopri5_densePassive atol rtol) f ob hob obs0 x0 y0 firstStep hinit fo hl fuel
+
+/-- RK23: `dense_output` changes only the interpolant samples in the log (observer not reading the interpolant) -/
+theorem c12_dense_flag_passive_rk23 {σ : Type} {n : Nat} (P : Ctl.R23Params K n) (f : Ctl.Rhs K n) (ob : Ctl.Obs σ K n) (hob : Ctl.IgnoresIp ob)
+    (obs0 : σ) (x0 : K) (y0 : Ctl.Vec K n) (firstStep : Option K) (hmaxArg : K) (fuel : Nat) :
+    (Ctl.rk23Solve (Ctl.setDense23 P false) f ob obs0 x0 y0 firstStep hmaxArg fuel).map Ctl.eResult
+      = (Ctl.rk23Solve (Ctl.setDense23 P true) f ob obs0 x0 y0 firstStep hmaxArg fuel).map Ctl.eResult :=
+  Ctl.rk23Solve_dense_passive P f ob hob obs0 x0 y0 firstStep hmaxArg fuel
+
+/-- RK4: `dense_output` changes only the interpolant samples in the log (observer not reading the interpolant) -/
+theorem c12_dense_flag_passive_rk4 {σ : Type} {n : Nat} (P : Ctl.R4Params K) (f : Ctl.Rhs K n) (ob : Ctl.Obs σ K n) (hob : Ctl.IgnoresIp ob)
+    (obs0 : σ) (x0 : K) (y0 : Ctl.Vec K n) (h : K) (fuel : Nat) :
+    (Ctl.rk4Solve (Ctl.setDense4 P false) f ob obs0 x0 y0 h fuel).map Ctl.eResult
+      = (Ctl.rk4Solve (Ctl.setDense4 P true) f ob obs0 x0 y0 h fuel).map Ctl.eResult :=
+  Ctl.rk4Solve_dense_passive P f ob hob obs0 x0 y0 h fuel
 end
